@@ -116,7 +116,7 @@ def run_replay(binary, replay_json, timeout=30):
         return 4, "replay timed out (native run hangs)"
 
 
-MEMSAFETY_RE = re.compile(r"dereference failure|rust_dealloc|pointer invalid|deallocated|double free|free argument|pointer outside|pointer NULL|out of bounds", re.I)
+MEMSAFETY_RE = re.compile(r"unallocated memory|dereference failure|rust_dealloc|pointer invalid|deallocated|double free|free argument|pointer outside|pointer NULL|out of bounds", re.I)
 
 
 def run_replay_memcheck(binary, replay_json, timeout=300):
